@@ -15,6 +15,7 @@ derivation H (for derivatives of derivatives) is available.
 
 import itertools
 import math
+from fractions import Fraction
 
 import ufl
 import ufl.classes as C
@@ -75,6 +76,14 @@ Hypothesis tanh_id : forall x,
   sq (div (mul lit2f (fn FCosh x)) (add (fn FCosh (mul lit2f x)) lit1f)) = sub z1 (sq (fn FTanh x)).
 Hypothesis cond_sel : forall b x y,
   cond_ b x y = add (mul (cond_ b z1 z0) x) (mul (sub lit1f (cond_ b z1 z0)) y).
+Hypothesis conj_zero : conj z0 = z0.
+Hypothesis conj_one : conj z1 = z1.
+Hypothesis conj_add : forall x y, conj (add x y) = add (conj x) (conj y).
+Hypothesis conj_mul : forall x y, conj (mul x y) = mul (conj x) (conj y).
+Hypothesis conj_opp : forall x, conj (opp x) = opp (conj x).
+Hypothesis conj_sub : forall x y, conj (sub x y) = sub (conj x) (conj y).
+Hypothesis re_zero : re z0 = z0.
+Hypothesis im_zero : im z0 = z0.
 Hypothesis bj_refl : forall x, bessel BJ (sub z0 z1) x = opp (bessel BJ (add z0 z1) x).
 Hypothesis by_refl : forall x, bessel BY (sub z0 z1) x = opp (bessel BY (add z0 z1) x).
 Hypothesis bi_refl : forall x, bessel BI (sub z0 z1) x = bessel BI (add z0 z1) x.
@@ -119,7 +128,9 @@ Ltac gpush d L :=
     ?(g_tan d L), ?(g_cosh d L), ?(g_sinh d L), ?(g_tanh d L), ?(g_acos d L), ?(g_asin d L),
     ?(g_atan d L), ?(g_erf d L), ?(g_atan2 d L), ?(g_max d L), ?(g_min d L),
     ?(g_bj d L), ?(g_by d L), ?(g_bi d L), ?(g_bk d L), ?G_env, ?H_env.
-Ltac dxpush := repeat progress rewrite ?Dx_zero, ?Dx_one, ?Dx_add, ?Dx_mul, ?Dx_opp, ?Dx_sub.
+Ltac cpush := repeat progress rewrite ?conj_zero, ?conj_one, ?conj_add, ?conj_mul, ?conj_opp, ?conj_sub, ?Dx_zero.
+Ltac zeros := repeat progress rewrite ?conj_zero, ?re_zero, ?im_zero, ?Dx_zero.
+Ltac dxpush := repeat progress rewrite ?conj_zero, ?re_zero, ?im_zero, ?Dx_zero, ?Dx_one, ?Dx_add, ?Dx_mul, ?Dx_opp, ?Dx_sub.
 Ltac nz_hyp_field :=
   match goal with
   | Hn : ?Y <> ?z |- ?X <> ?z =>
@@ -128,9 +139,32 @@ Ltac nz_hyp_field :=
       (transitivity X; [ first [ ring | field; repeat match goal with |- _ /\ _ => split end; nz_char0 char0 ]
                        | exact E ])
   end.
+Ltac nz_factor :=       (* X is a factor of a hypothesis Y <> 0 *)
+  match goal with
+  | Hn : ?Y <> ?z |- ?X <> ?z =>
+      let E := fresh "E" in
+      intro E; apply Hn; rewrite E; ring
+  end.
+Ltac nz_fn :=           (* fn f X <> 0 from fn f Y <> 0 with X = Y *)
+  match goal with
+  | Hn : fn ?f ?Y <> ?z |- fn ?f ?X <> ?z =>
+      replace X with Y; [ exact Hn | first [ ring | field; repeat match goal with |- _ /\ _ => split end; nz_char0 char0 ] ]
+  end.
+Ltac nz_scaled_p p :=   (* X = p * Y for a hypothesis Y <> 0 and a small numeral p *)
+  match goal with
+  | Hn : ?Y <> ?z |- ?X <> ?z =>
+      let d := eval vm_compute in (@of_pos A p) in
+      let E := fresh "E" in
+      intro E; apply Hn;
+      (transitivity (div X d);
+       [ field; repeat match goal with |- _ /\ _ => split end; nz_char0 char0
+       | rewrite E; field; repeat match goal with |- _ /\ _ => split end; nz_char0 char0 ])
+  end.
+Ltac nz_scaled := first [ nz_scaled_p 2%positive | nz_scaled_p 3%positive | nz_scaled_p 4%positive
+                        | nz_scaled_p 6%positive ].
 Ltac nzs :=
   repeat match goal with |- _ /\ _ => split end;
-  first [ assumption | nz_from_hyps | nz_char0 char0 | nz_hyp_field ].
+  first [ assumption | nz_from_hyps | nz_char0 char0 | nz_hyp_field | nz_fn | nz_factor | nz_scaled ].
 Ltac pow_unify :=
   match goal with
   | |- context [pow ?X ?Y] =>
@@ -151,6 +185,18 @@ Ltac pow_unify :=
           lazymatch constr:((X, Y)) with (X', Y') => fail | _ => idtac end;
           replace (atan2 X Y) with (atan2 X' Y') by (f_equal; first [ ring | field; nzs ])
       end
+  | |- context [re ?X] =>
+      match goal with
+      | |- context [re ?Y] =>
+          lazymatch X with Y => fail | _ => idtac end;
+          replace (re X) with (re Y) by (f_equal; first [ ring | field; nzs ])
+      end
+  | |- context [im ?X] =>
+      match goal with
+      | |- context [im ?Y] =>
+          lazymatch X with Y => fail | _ => idtac end;
+          replace (im X) with (im Y) by (f_equal; first [ ring | field; nzs ])
+      end
   | |- context [cmp ?o ?X ?Y] =>
       match goal with
       | |- context [cmp o ?X' ?Y'] =>
@@ -158,7 +204,7 @@ Ltac pow_unify :=
           replace (cmp o X Y) with (cmp o X' Y') by (f_equal; first [ ring | field; nzs ])
       end
   end.
-Ltac fin0 := first [ reflexivity | ring | field; nzs ].
+Ltac fin0 := first [ reflexivity | ring | rewrite ?(Fdiv_def Fth); ring | field; nzs ].
 Ltac fin := first [ fin0 | repeat unify1; fin0 | repeat first [ unify1 | pow_unify ]; fin0 ].
 (* identities are used right-to-left on the specification side, one at a time, only if needed *)
 Ltac ids :=
@@ -184,11 +230,13 @@ def tactic(nhyps, second=False, spatial=False):
     rw = f"repeat progress rewrite {hy}; " if nhyps else ""
     s = "norm_goal; gpush G GL; " + rw
     if second:
-        s += "gpush H HL; " + rw
+        s += "norm_goal; gpush H HL; " + rw
     if spatial:
         s += "dxpush; "
+    s += "zeros; "
     s += ("first [ norm_goal; fin | ids; norm_goal; fin | dxpush; norm_goal; fin "
-          "| ids; condsel; norm_goal; fin | ids; dxpush; norm_goal; fin ]")
+          "| ids; condsel; norm_goal; fin | ids; dxpush; norm_goal; fin | norm_goal; cpush; fin "
+          "| dxpush; norm_goal; cpush; fin ]")
     return s
 
 
@@ -278,10 +326,47 @@ class DCase(coqgen.Case):
         super().__init__(name, out=out, spec=spec, hyps=hyps, comps=comps, note=note, ctx=ctx,
                          tactic=tactic(nrw, second=variation2 is not None, spatial=spatial), named=named)
         self.F = F
+        self.nrw = nrw
         self.variation = variation
         self.variation2 = variation2
         self.nonzero = list(nonzero)
         self.prefix_rank = prefix_rank
+        self.extra_examples = []      # extra Gallina text appended after the definitions
+
+    def emit(self):
+        """As coqgen.Case.emit, but the shared-subterm definitions are printed after *all*
+        expressions (out, F, named) have been serialised."""
+        ser = ufl2coq.Ser(self.ctx, prefix=f"{self.name}_n")
+        t_out = ser.expr(self.out)
+        nm = {k: ser.expr(v) for k, v in self.named.items()}
+        txt = [f"(* case {self.name}: {self.note} *)\n", ser.definitions_text()]
+        txt.append(f"Definition {self.name}_out : expr := {t_out}.\n")
+        for k, v in nm.items():
+            txt.append(f"Definition {self.name}_{k} : expr := {v}.\n")
+        sh = ufl2coq.natlist(self.out.ufl_shape)
+        self.lemmas = []
+        txt.append(f"Example {self.name}_shape : shape {self.name}_out = {sh}. Proof. reflexivity. Qed.\n")
+        self.lemmas.append(f"{self.name}_shape")
+        fi = sorted((self.ctx.index(i), d) for i, d in
+                    zip(self.out.ufl_free_indices, self.out.ufl_index_dimensions))
+        fit = "[" + "; ".join(f"({i}, {d})" for i, d in fi) + "]"
+        txt.append(f"Example {self.name}_fidx : fidx {self.name}_out = {fit}. Proof. reflexivity. Qed.\n")
+        self.lemmas.append(f"{self.name}_fidx")
+        for ename, etxt in self.extra_examples:
+            txt.append(etxt)
+            self.lemmas.append(ename)
+        hyps = "".join("(" + h.format(**{k: f"{self.name}_{k}" for k in nm}) + ") -> " for h in self.hyps)
+        nh = len(self.hyps)
+        names = " ".join(f"H{k}" for k in range(nh))
+        intro = f"intros {names}; " + "".join(f"try norm_hyp H{k}; " for k in range(self.nrw, nh)) if nh else ""
+        for c in self.components():
+            cn = "_".join(map(str, c))
+            rhs = self.spec.replace("{c}", ufl2coq.natlist(c))
+            ln = f"{self.name}_c{cn}"
+            txt.append(f"Lemma {ln} s rho : {hyps}DEN s rho {self.name}_out {ufl2coq.natlist(c)} = {rhs}.\n"
+                       f"Proof. {intro}{self.tactic}. Qed.\n")
+            self.lemmas.append(ln)
+        return "".join(txt)
 
 
 def definedness(F):
@@ -323,30 +408,43 @@ def definedness(F):
 # ----------------------------------------------------------------------------------------------
 # search oracle: jets with one extra variable tau
 
-def gateaux_oracle(F, out, variation, trials=20, seed=0, nv=2, prefix_rank=None, deltas=None):
+def _var_comp(v, comp):
+    """value description of component comp of a variation: None (zero), a number, or a scalar Expr"""
+    if not isinstance(v, C.Expr) and callable(v):
+        x = v(tuple(comp))
+        return None if not x else x
+    if isinstance(v, (C.Zero, C.ListTensor, C.FormArgument, C.Indexed)):
+        return variation_component(v, comp)
+    return v[tuple(comp)] if comp else v
+
+
+def derivative_oracle(F, out, variation, trials=20, seed=0, nv=2, prefix_rank=None, variation2=None):
     """Independent definition of the derivative: evaluate F with every terminal T replaced by
-    T + tau * variation(T) on jets with an extra variable tau (index nv), take d/dtau at tau = 0,
-    compare with the evaluated `out`.  Returns a JSON-able witness of a mismatch or None."""
+    T + tau * variation(T) on jets with an extra variable tau, take d/dtau at tau = 0 (twice, with
+    a second variable, for `variation2`), compare with the evaluated `out`.
+    Returns a JSON-able witness of a mismatch, or None."""
     import random
 
     import pyden
 
     rng = random.Random(seed)
+    ntau = 1 if variation2 is None else 2
+    NV = nv + ntau
+    ORDER = 3 + ntau - 1
 
     class PEnv(pyden.Env):
-        def __init__(self, seed, perturb):
-            super().__init__(nv=nv + 1, order=2, seed=seed)
-            self.perturb = perturb
-            self.tau = pyden.Jet.var(nv + 1, 2, nv, 0)
+        def __init__(self, seed, positive=False):
+            super().__init__(nv=NV, order=ORDER, seed=seed, positive=positive)
+            self.perturb = False
 
         def field(self, key, constant=False):
             if key in self.cache:
                 return self.cache[key]
             j = super().field(key, constant)
-            # fields do not depend on tau
-            j = pyden.Jet(j.nv, j.order, {a: v for a, v in j.c.items() if a[nv] == 0})
-            if not j.c.get((0,) * (nv + 1)):
-                j.c[(0,) * (nv + 1)] = 1
+            c = {a: v for a, v in j.c.items() if all(x == 0 for x in a[nv:])}
+            if not c.get((0,) * NV):
+                c[(0,) * NV] = 1
+            j = pyden.Jet(NV, ORDER, c)
             self.cache[key] = j
             return j
 
@@ -354,40 +452,51 @@ def gateaux_oracle(F, out, variation, trials=20, seed=0, nv=2, prefix_rank=None,
             base = super().value(t, comp, side)
             if not self.perturb:
                 return base
-            if deltas is not None and t in deltas:
-                return base + self.tau * deltas[t](tuple(comp)) if deltas[t](tuple(comp)) else base
-            v = variation.get(t)
-            if v is None:
-                return base
-            vc = variation_component(v, comp) if isinstance(
-                v, (C.Zero, C.ListTensor, C.FormArgument, C.Indexed)) else (v[tuple(comp)] if comp else v)
-            if vc is None:
-                return base
-            return base + self.tau * pyden.evaluate(vc, self.plain, {}, (), side)
+            for k, var in enumerate([variation] + ([variation2] if variation2 is not None else [])):
+                v = var.get(t)
+                if v is None:
+                    continue
+                vc = _var_comp(v, comp)
+                if vc is None:
+                    continue
+                tau = pyden.Jet.var(NV, ORDER, nv + k, 0)
+                if isinstance(vc, C.Expr):
+                    self.perturb = False
+                    try:
+                        val = pyden.evaluate(vc, self, {}, (), side)
+                    finally:
+                        self.perturb = True
+                else:
+                    val = vc
+                base = base + tau * val
+            return base
 
     comps = comps_of(out.ufl_shape)
     for t in range(trials):
-        sd = rng.randrange(10 ** 9)
-        e0, e1 = PEnv(sd, False), PEnv(sd, True)
-        e1.plain = e0
-        e1.cache = {}
+        env = PEnv(rng.randrange(10 ** 9), positive=(t % 2 == 1))
         for rho in pyden.free_index_valuations(out, rng, 2):
             for c in comps:
                 cf = c if prefix_rank is None else c[:prefix_rank]
                 try:
-                    # the perturbed environment must see the same base fields
-                    e1.cache = e0.cache
-                    a = pyden.evaluate(out, e0, rho, c)
-                    b = pyden.evaluate(F, e1, rho, cf).diff(nv)
-                except ZeroDivisionError:
+                    env.perturb = False
+                    a = pyden.evaluate(out, env, rho, c)
+                    env.perturb = True
+                    b = pyden.evaluate(F, env, rho, cf)
+                    for k in range(ntau):
+                        b = b.diff(nv + k)
+                    env.perturb = False
+                except (ZeroDivisionError, ValueError, OverflowError):
+                    env.perturb = False
                     continue
-                except (pyden.Unsupported, ValueError, OverflowError, KeyError):
+                except (pyden.Unsupported, KeyError, TypeError):
                     return None
-                a0 = pyden.Jet(a.nv, 1, {k: v for k, v in a.c.items() if sum(k) <= 1 and k[nv] == 0})
-                b0 = pyden.Jet(b.nv, 1, {k: v for k, v in b.c.items() if sum(k) <= 1 and k[nv] == 0})
-                if not a0.close_to(b0, tol=1e-6):
+                z = (0,) * NV
+                av, bv = a.c.get(z, 0), b.c.get(z, 0)
+                ok = (av == bv) if isinstance(av, (int, Fraction)) and isinstance(bv, (int, Fraction)) \
+                    else abs(complex(av) - complex(bv)) <= 1e-6 * (1 + abs(complex(av)) + abs(complex(bv)))
+                if not ok:
                     return {"component": list(c), "free_index_values": {str(k): v for k, v in rho.items()},
-                            "implementation_value": str(a0.value()), "true_derivative": str(b0.value()),
-                            "terminal_values": {str(k): str(v.value()) for k, v in list(e0.cache.items())[:30]},
+                            "implementation_value": str(av), "true_derivative": str(bv),
+                            "terminal_values": {str(k): str(v.value()) for k, v in list(env.cache.items())[:30]},
                             "trial": t}
     return None
